@@ -177,7 +177,21 @@ def recorded_backward_wrt_times():
     return "; ".join(out) if out else None
 
 
-TABLE = {"recorded_backward_wrt_times": recorded_backward_wrt_times,
+def same_tensor_in_two_positions():
+    """a tensor passed in two parameter positions gets the sum of the two positional gradients (once), in both modes"""
+    out = []
+    for cg in (False, True):
+        a = torch.tensor(0.7, dtype=DT, requires_grad=True)
+        ts = torch.linspace(0, 1, 5, dtype=DT)
+        yt = solve_ivp(lambda t, y, p, q: -(p + q) * y, ts, torch.ones(2, dtype=DT), params=(a, a), method="rk4")
+        g, = torch.autograd.grad(yt[-1].sum(), a, create_graph=cg)
+        ref = -4 * torch.exp(-2 * a.detach()).item()
+        if not abs(g.item() - ref) <= 1e-3:
+            out.append("create_graph=%s: gradient %.6f, expected %.6f" % (cg, g.item(), ref))
+    return "; ".join(out) if out else None
+
+
+TABLE = {"same_tensor_in_two_positions": same_tensor_in_two_positions, "recorded_backward_wrt_times": recorded_backward_wrt_times,
          "analytic_sensitivities": analytic_sensitivities, "unused_and_nontensor_parameters": unused_and_nontensor_parameters,
          "time_gradients": time_gradients, "backward_options": backward_options, "tuple_state": tuple_state}
 
